@@ -5,6 +5,9 @@ func init() {
 		ID:          "C01",
 		Explanation: "Decides the structural clauses behind 'log queries return exactly the matching lines' for all record sets, queries and storage capabilities: every stage processor obeys its class of the line/keep contract, a rejected record never flows on, the parser maps each filter/matcher spelling to the operator it denotes and the engine builds the matcher that implements it, and/or/not compose as Boolean connectives, filters handed to the storage are re-evaluated by the engine, and each record goes through prefilter and pipeline once.",
 		Decided: []string{
+			"FE-CLASS: the ip() line filter attempts an address capture at every position holding a digit, a hex letter or a colon",
+			"PV-ORDER: the per-record label set is cleared before each record's labels are added",
+			"PV-WHOLE/CH-POL/PV-OKGATE (shared with C02): every selector matcher is evaluated by the storage or by a prefilter; the Docker backend implements = != =~ !~ with a missing label read as \"\"; each listed container is kept at most once",
 			"LP-CLASS: each of the Processor implementers is in the class the table assigns (filter: line unchanged, keep = predicate; parser/rewriter: never drops; pipeline/and/or: composite); LP-BUILD: every pipeline stage type is built into a processor of its class",
 			"LP-DROP: wherever a Process result is used, the line of a rejected record is never used on a path where keep is false",
 			"CH-OP/CH-MAP/CH-ARGORDER: the parser's token->operator switches and the engine's operator->matcher builders are the relations the LogQL grammar defines (negated forms wrap the positive matcher in NotMatcher); matcher bodies compare (label value, literal) in this order",
